@@ -144,6 +144,8 @@ func dumpBlocks(bs []Block) string {
 			fmt.Fprintf(w, "B %s\n", hx(b.Text))
 		case 'R':
 			fmt.Fprintf(w, "R\n")
+		case 'L':
+			fmt.Fprintf(w, "L\n")
 		case 'T':
 			fmt.Fprintf(w, "T %d", len(b.Header))
 			for _, c := range b.Header {
